@@ -239,6 +239,36 @@ func (c *Counters) Summary() string {
 	return b.String()
 }
 
+// Each calls f(histogram, bucket, n) for every counter — the shape hreg.Stats wants
+// (for i := 0; i < n; i++ { o.Stats.Add(hist, bucket) } or a direct add).
+func (c *Counters) Each(f func(hist, bucket string, n int)) {
+	f("chain", "slots", c.Slots)
+	f("chain", "blocks", c.Blocks)
+	f("chain", "skipped", c.Skipped)
+	f("chain", "forced-skips", c.ForcedSkips)
+	f("chain", "epochs", c.Epochs)
+	f("chain", "upgrades", c.Upgrades)
+	f("chain", "leak-epochs", c.LeakEpochs)
+	f("chain", "finality-advances", c.FinalityAdvances)
+	f("chain", "activations", c.Activations)
+	f("chain", "ejections", c.Ejections)
+	f("chain", "exits-begun", c.ExitsBegun)
+	f("chain", "slashed", c.Slashed)
+	f("chain", "sync-period-boundaries", c.SyncPeriodBoundaries)
+	f("chain", "eth1-adoptions", c.Eth1Adoptions)
+	f("chain", "historical-accumulations", c.HistoricalAccumulations)
+	f("chain", "epc-sync-repairs", c.EpcRepairs)
+	f("chain", "plain-transition-rejected", c.PlainRejected)
+	for k, v := range c.Forks {
+		if v {
+			f("fork", k, 1)
+		}
+	}
+	for k, v := range c.Ops {
+		f("op", k, v)
+	}
+}
+
 // Add merges another chain's counters into c (for totals over several chains).
 func (c *Counters) Add(o *Counters) {
 	c.Slots += o.Slots
